@@ -271,4 +271,68 @@ let run_c05conc path =
   L.iter (fun m -> if not (L.mem m !seen_methods) then report "diff" "lock" "method %s not found in tree.go" m) (writers @ readers);
   Printf.printf "done cases=%d diffs=%d distinct=%d\n" !n !bad !distinct
 
-let () = register "c04" run_c04; register "c05" run_c05; register "c05conc" run_c05conc
+(* ------------------------------------------------------------------ c05lin *)
+let lop_of_s (s : string) : TreeLin.lop =
+  match split ':' s with
+  | ["G"; t] -> TreeLin.LGet (bytes_of_hex t)
+  | ["M"; t] -> TreeLin.LMatch (bytes_of_hex t)
+  | ["Q"; t] -> TreeLin.LSearch (bytes_of_hex t)
+  | ["MF"; t] -> TreeLin.LMatchFirst (bytes_of_hex t)
+  | ["QF"; t] -> TreeLin.LSearchFirst (bytes_of_hex t)
+  | ["L"] -> TreeLin.LAll
+  | ["N"] -> TreeLin.LCount
+  | _ -> TreeLin.LUpd (op_of_s s)
+
+let lin_fuel = n_of_int 400000
+
+let run_c05lin path =
+  let n = ref 0 and distinct = ref 0 and undecided = ref 0 and concurrent = ref 0 in
+  L.iter (fun line -> match words line with
+    | "lin" :: k :: evs ->
+      incr n;
+      let parsed = L.map (fun e -> match split ';' e with
+        | [_; call; ret; o; r] -> (lop_of_s o, vlist_of_s r, int_of_string call, int_of_string ret)
+        | _ -> failwith ("bad event " ^ e)) evs in
+      let h = L.map (fun (o, r, c, t) -> TreeLin.mk_event o r (n_of_int c) (n_of_int t)) parsed in
+      (* non-trivial: some pair of operations really overlaps in time *)
+      if L.exists (fun (_, _, c1, t1) -> L.exists (fun (_, _, c2, t2) -> c1 < c2 && c2 < t1) parsed) parsed then incr concurrent;
+      incr distinct;
+      (match TreeLin.tree_lin_verdict h lin_fuel with
+       | Lin.Yes -> ()
+       | Lin.No -> report "propfail" "lin" "%s no linearization exists for history: %s" k (S.concat " " evs)
+       | Lin.OutOfFuel -> incr undecided)
+    | _ -> ()) (read_lines path);
+  Printf.printf "note lin undecided=%d concurrent=%d\n" !undecided !concurrent;
+  Printf.printf "done cases=%d diffs=%d distinct=%d\n" !n !bad !distinct
+
+(* ------------------------------------------------------------------ parse *)
+let s_of_presult = function
+  | Parse.POk t -> "ok:" ^ hex_of_bytes t
+  | Parse.PErr Parse.ErrZeroLength -> "zl"
+  | Parse.PErr Parse.ErrWildcards -> "wc"
+  | Parse.POutOfFuel -> "fuel"
+
+let run_parse path =
+  let n = ref 0 and distinct = ref 0 in
+  let seen = Hashtbl.create 4096 in
+  L.iter (fun line -> match words line with
+    | ["parse"; h; a; r; w] ->
+      incr n;
+      if not (Hashtbl.mem seen line) then (Hashtbl.replace seen line (); incr distinct);
+      let s = bytes_of_hex h and allow = (a = "1") in
+      let m = s_of_presult (Parse.parse s allow) in
+      let cw = if Parse.contains_wildcards s then "1" else "0" in
+      let nul_free = MatchSpec.no_nul s in
+      (* the property predicate: classification by parse_spec, and a successful result is in normal form *)
+      let spec = s_of_presult (Parse.parse_spec s allow) in
+      let ok_normal = (S.length r < 3 || S.sub r 0 3 <> "ok:") ||
+                      Parse.normal_form allow (bytes_of_hex (S.sub r 3 (S.length r - 3))) in
+      if nul_free && r <> spec then report "propfail" "parse" "input=%s allow=%s Parse=%s spec=%s" h a r spec
+      else if nul_free && not ok_normal then report "propfail" "parse" "input=%s allow=%s Parse=%s is not in normal form" h a r
+      else if r <> m then report "diff" "parse" "input=%s allow=%s Parse=%s model=%s" h a r m
+      else if w <> cw then report "diff" "parse" "input=%s ContainsWildcards=%s model=%s" h w cw
+    | _ -> ()) (read_lines path);
+  Printf.printf "done cases=%d diffs=%d distinct=%d\n" !n !bad !distinct
+
+let () = register "c04" run_c04; register "c05" run_c05; register "c05conc" run_c05conc;
+  register "c05lin" run_c05lin; register "parse" run_parse
